@@ -69,7 +69,7 @@ theorem C13_precond (F : Flags) (o : Obs) (x : Act) (ev : Ev) (y : Act) (eff : E
     eff = .none ∧ y.phase = .finished ∧ y.started = [] ++ x.started ∧
     ((ev = .precondFail ∧ y.res = .generic) ∨ (ev = .ctxErr ∧ o.cancelled () = true ∧ y.res = .ctx)) := by
   steplocal_cases h
-  all_goals (simp_all [Act.stop, Act.stopDeps])
+  all_goals (simp_all [Act.stop])
 
 set_option maxHeartbeats 1000000 in
 /-- **C13 (prompt).** When the task has a prompt and `--yes` is not given, `guardsPassed`
@@ -81,7 +81,7 @@ theorem C13_prompt (F : Flags) (o : Obs) (x : Act) (ev : Ev) (y : Act) (eff : Ef
     ev ≠ .guardsPassed ∧ eff = .none ∧ y.phase = .finished ∧ y.started = x.started ∧
     (ev = .promptFail → y.res = .typed 205) := by
   steplocal_cases h
-  all_goals (simp_all [Act.stop, Act.stopDeps])
+  all_goals (simp_all [Act.stop])
 
 /-- in short: a failing late guard disables `guardsPassed` under every combination of flags -/
 theorem C13_guardsPassed_disabled (F : Flags) (o : Obs) (x : Act) (hph : x.phase = .guards)
